@@ -48,7 +48,7 @@ def uri_tie(ctx):
         # "//" would start a comment: a variable cannot directly follow the root, an empty literal is "/"
         src = ""
         for kind, s in segs:
-            src += ("/" + s) if kind == "L" else ("/{ '%s num }" % s)
+            src += ("/" + s) if kind == "L" else ("/{ '%s%s num }" % (s, rng.choice(["", "", "?", "!"])))
         ps.append({"mods": {"file:///w/main.oal": "res %s on %s -> <>;\n" % (src, m)}, "main": "file:///w/main.oal"})
     stat = [99, 100, 101, 199, 200, 404, 599, 600, 0, 1, 65535, 65536, 70000, 4294967396] + [rng.randrange(0, 1200) for _ in range(40)]
     for n in stat:
